@@ -402,6 +402,7 @@ func checkC09(c *Ctx) {
 		r.Unk("C09.restore", "(*history.Sources).Walk", "-", "anchor not found")
 	}
 	checkC09Round2(c)
+	checkC09Round4(c)
 }
 
 func isLenCall(v ssa.Value) bool {
